@@ -552,11 +552,37 @@ func isErrorExit(f *ssa.Function, r *ssa.Return) bool {
 			return false
 		}
 		// error known non-nil here?
-		if !isFreshError(l) && !onNonNilSide(l, r) {
+		if !isFreshError(l) && !onNonNilSide(l, r) && !onClassifiedSide(l, r) {
 			return false
 		}
 	}
 	return true
+}
+
+// onClassifiedSide: `at` only executes where a call that classifies errors (commonerrors.Any, errors.Is, errors.As) answered
+// true for v against something else: v is not nil there (neither Any(nil, kinds…) nor errors.Is(nil, kind) is true).
+func onClassifiedSide(v ssa.Value, at ssa.Instruction) bool {
+	return onBoolSide(at, true, func(c ssa.Value) bool {
+		cl, ok := c.(*ssa.Call)
+		if !ok || len(cl.Call.Args) < 2 {
+			return false
+		}
+		switch n := calleeFull(&cl.Call); {
+		case strings.HasSuffix(n, "commonerrors.Any"), n == "errors.Is", n == "errors.As":
+		default:
+			return false
+		}
+		if !sameValue(cl.Call.Args[0], v) {
+			return false
+		}
+		// compared with nil as well? then nothing is known
+		for _, e := range variadicElems(cl.Call.Args[1]) {
+			if isNilConst(e) {
+				return false
+			}
+		}
+		return true
+	})
 }
 
 func (c *Ctx) c16Typestate() {
